@@ -171,4 +171,33 @@ ClosedPath(p, T) == [t \in 1..T |-> (p.s0 + CycStep(p) * (t - 1)) % p.s]
 ClosedExp(p, T)  == T * p.eb + (T - 1) * CycMin(p) + p.ee
 RECURSIVE Log2Ceil(_)
 Log2Ceil(n) == IF n <= 1 THEN 0 ELSE 1 + Log2Ceil((n + 1) \div 2)
+
+\* --------------------------------- closed-form family "decoupled chains with takeover"
+\* k independent chains: transition i -> i has exponent de[i], every other transition is
+\* ZERO; chain i emits symbol a (0) with exponent ae[i] and symbol b (1) with be[i]; initial
+\* pe[i], end ee[i] (-1 = probability zero).  Observations are a^n or a^n b (hundreds or
+\* thousands of symbols: only n and the presence of b are recorded).  Only the k constant
+\* paths can have non-zero probability, so with T = n + hasb
+\*     E_i = pe_i + (T - 1) * de_i + n * ae_i + hasb * be_i + ee_i ,
+\* the Viterbi optimum is min_i E_i on the constant path i, and the likelihood is
+\* sum_i 2^-E_i.  The dominant chain may die at the very end (be_i or ee_i ZERO) after the
+\* other chains have fallen hundreds of nats behind it ("takeover").  HmmExpMC (Dec = TRUE)
+\* proves the closed forms equal to MinExp / arg-min / Mantissa of the general definition.
+Times(c, e) == IF c = 0 THEN 0 ELSE IF e >= INF THEN INF ELSE c * e
+DecE(p, i, n, hasb) ==
+    Plus(Ex(p.pe[i]), Plus(Times(n + hasb - 1, Ex(p.de[i])),
+         Plus(Times(n, Ex(p.ae[i])), Plus(Times(hasb, Ex(p.be[i])), Ex(p.ee[i])))))
+DecMin(p, n, hasb) == Min({DecE(p, i, n, hasb) : i \in 1..p.k})
+RECURSIVE DecMantFrom(_, _, _, _, _, _)
+DecMantFrom(p, n, hasb, mn, i, acc) ==
+    IF i > p.k THEN acc ELSE DecMantFrom(p, n, hasb, mn, i + 1, Add2(acc, Term(DecE(p, i, n, hasb), mn)))
+DecMantissa(p, n, hasb, mn) == DecMantFrom(p, n, hasb, mn, 1, <<0, 0>>)
+DecObs(n, hasb) == [t \in 1..(n + hasb) |-> IF t <= n THEN 0 ELSE 1]
+DecModel(p) ==
+    [s |-> p.k, m |-> 2,
+     a   |-> [i \in 1..p.k |-> [j \in 1..p.k |-> IF i = j THEN p.de[i] ELSE -1]],
+     b   |-> [i \in 1..p.k |-> <<p.ae[i], p.be[i]>>],
+     pi  |-> p.pe, eps |-> p.ee]
+DecValid(p) == /\ p.k >= 1 /\ Len(p.pe) = p.k /\ Len(p.de) = p.k /\ Len(p.ae) = p.k
+               /\ Len(p.be) = p.k /\ Len(p.ee) = p.k
 =============================================================================
